@@ -617,6 +617,14 @@ def _try_branch(m, a, d):
     return Opaque("branch")
 
 
+def _is_none(m, a, d):
+    return int(a[0].variant == 0) if isinstance(a[0], Adt) and a[0].name == "Option" else Opaque("is_none")
+
+
+def _to_vec(m, a, d):
+    return a[0]          # an owned copy holds the same bytes: the model keeps the object (identity = provenance)
+
+
 def _ident(m, a, d):
     return a[0]
 
@@ -653,7 +661,8 @@ MODELS = {
     "std::iter::Iterator::any": _any, "std::iter::Iterator::all": _all, "std::iter::Iterator::filter": _filter, "std::iter::Iterator::map": _map,
     "std::iter::Iterator::find": _find,
     "<I as std::iter::IntoIterator>::into_iter": _ident, "std::iter::IntoIterator::into_iter": _ident,
-    "std::option::Option::unwrap_or": _unwrap_or, "std::result::Result::unwrap_or": _unwrap_or, "std::option::Option::is_some": _is_some,
+    "std::option::Option::unwrap_or": _unwrap_or, "std::result::Result::unwrap_or": _unwrap_or, "std::option::Option::is_some": _is_some, "std::option::Option::is_none": _is_none,
+    "std::slice::to_vec": _to_vec, "alloc::slice::to_vec": _to_vec, "core::slice::to_vec": _to_vec, "std::borrow::ToOwned::to_owned": _to_vec,
     "std::option::Option::map": _option_map, "std::option::Option::is_some_and": _is_some_and,
     "std::option::Option::copied": _ident, "std::option::Option::cloned": _ident,
     "std::ops::Try::branch": _try_branch,
